@@ -3,6 +3,7 @@ package mon
 import (
 	"context"
 	"fmt"
+	"runtime"
 	"sort"
 	"strings"
 	"sync"
@@ -235,6 +236,28 @@ func c40genScript(r *core.R, sub string, c *core.Ctx) *c40script {
 	}
 	uniq := 0
 	value := func(client int) string { uniq++; return fmt.Sprintf("c%dn%d", client, uniq) }
+	if sub == "firstuse" {
+		// every client changes world k in its k-th request, and the clients start each step together (a spin
+		// barrier in c40execute): the first use of every world ID is contended, so the lookup-or-create of the
+		// worlds registry must hand all clients the same world
+		s.nWorlds = 3
+		nClients = r.Range(3, 4)
+		for cl := 0; cl < nClients; cl++ {
+			var ops []*c40request
+			var think []uint8
+			for w := 0; w < s.nWorlds; w++ {
+				req := &c40request{kind: "evaluate", in: c40in{Kind: "change", World: w}}
+				req.in.Edits = []c40edit{{Kind: "add-tag", Feature: r.Intn(2), Key: cl % c40nKeys, Value: value(cl)}}
+				req.keys = s.keys
+				req.build()
+				ops = append(ops, req)
+				think = append(think, 0)
+			}
+			s.clients = append(s.clients, ops)
+			s.thinking = append(s.thinking, think)
+		}
+		return s
+	}
 	for cl := 0; cl < nClients; cl++ {
 		var ops []*c40request
 		var think []uint8
@@ -433,6 +456,7 @@ func c40execute(s *c40script) *c40run {
 	rep := core.Watch(func() {
 		var wg sync.WaitGroup
 		start := make(chan struct{})
+		var arrive [8]atomic.Int32
 		for cl := range s.clients {
 			wg.Add(1)
 			go func(cl int) {
@@ -441,6 +465,15 @@ func c40execute(s *c40script) *c40run {
 				panicked, class, frame, _ := core.Protect(func() {
 					for o, req := range s.clients[cl] {
 						c40pause(s.thinking[cl][o])
+						if s.sub == "firstuse" {
+							// all clients begin step o together
+							arrive[o].Add(1)
+							for spin := 0; arrive[o].Load() < int32(len(s.clients)); spin++ {
+								if spin%2000 == 1999 {
+									runtime.Gosched()
+								}
+							}
+						}
 						perClient[cl] = append(perClient[cl], do(cl, req)...)
 					}
 				})
@@ -549,7 +582,7 @@ func init() {
 		Technique: "recorded client-boundary histories checked for linearizability (porcupine v1.3.0) against a sequential worldID->feature->tags model; deadlock by goroutine quiescence; race detector; lock-state probes at the wrapped world's mutating methods",
 		Rule: "case = script of 2-4 clients x 3-8 requests (Evaluate read of all tracked features | Evaluate change with unique tag values: add-tag, multi-feature add-tags, remove-tag, add-point | " +
 			"DeleteWorld | ListWorlds) over 1-3 world IDs, with a delay script (none/Gosched/30us/300us) for the wrapped Worlds and MutableWorld method boundaries; each script is run 3 times " +
-			"against a fresh service; final reads of every world appended; sub-workloads by case index: main (5/8), rmw (read-dependent changes), awc (add-world-with-change), ui (Evaluator.EvaluateString); " +
+			"against a fresh service; final reads of every world appended; sub-workloads by case index: main (4/8), firstuse (all clients change each fresh world at the same moment), rmw (read-dependent changes), awc (add-world-with-change), ui (Evaluator.EvaluateString); " +
 			"distinct = distinct (script, recorded event order of the first run); non-trivial = two requests of different clients on the same world overlapped in time and one of them was a change or a delete",
 		Assumptions: []string{"porcupine's checker is correct", "the history is recorded at the client boundary with one atomic counter as clock",
 			"one Evaluate is modelled as two atomic steps (world lookup, then access), which is the lock structure of the service"},
@@ -558,9 +591,9 @@ func init() {
 		MaxParallel: 16,
 		CaseCap:     15 * time.Minute,
 		Required: []string{"histories_checked", "linearizable", "overlap_change_change", "overlap_change_read", "overlap_delete_evaluate", "mutations_under_write_lock",
-			"boundary_delays", "sub_main", "sub_rmw", "sub_awc", "sub_ui", "gen_multi_feature_change", "final_state_has_concurrent_writes"},
+			"boundary_delays", "sub_main", "sub_firstuse", "sub_rmw", "sub_awc", "sub_ui", "gen_multi_feature_change", "final_state_has_concurrent_writes"},
 		Run: func(c *core.Ctx) {
-			sub := []string{"main", "main", "main", "main", "main", "rmw", "awc", "ui"}[c.Index%8]
+			sub := []string{"main", "main", "firstuse", "main", "main", "rmw", "awc", "ui"}[c.Index%8]
 			c.Count("sub_" + sub)
 			script := c40genScript(c.R, sub, c)
 			if c.Index < 3 {
